@@ -164,6 +164,7 @@ func (w *World) enabled() []Event {
 				return Event{Name: "rnd:" + op.ID + "=" + fmtF(f), tgt: op.Inst, run: func() { op.resF = f; op.Applied = true; w.answer(op) }}
 			}
 			def = append(def, mk(0.5))
+			overdue = true // a random draw takes no time: it is answered before time passes
 			if w.devAllowed(op.Inst) {
 				for _, f := range s.RandMenu {
 					alts = append(alts, mk(f))
